@@ -272,6 +272,9 @@ def install_probe():
         if w is not None:
             # the step at which a worker commits to the next request of this channel
             w.__dict__.setdefault("c11_service_starts", {}).setdefault(getattr(conn, "cid", id(self)), []).append(w.sched.steps)
+            me = w.sched.me()
+            w.__dict__.setdefault("c11_service_threads", {}).setdefault(getattr(conn, "cid", id(self)), []).append(
+                (w.sched.steps, getattr(me, "tid", None)))
             if conn is not None:
                 w.__dict__.setdefault("c11_chan_cid", {})[id(self)] = conn.cid
         r = orig_service(self)
@@ -339,6 +342,18 @@ def judge(scn, o):
             began = max([x for x in starts if x <= step], default=None)
             if began is not None and began > fstep and i > m:
                 late.append(i)
+        # the thread that met the error itself: whatever it does next comes after the error in its own
+        # program order (no schedule can excuse it) -- it must not go on to start a later request of this
+        # connection
+        ftid, frole = getattr(w, "fault_thread", (None, None))
+        if frole == "worker":
+            for step, tid in getattr(w, "c11_service_threads", {}).get(cid, []):
+                if tid == ftid and step > w.fault_step:
+                    for estep, i in entered:
+                        if i > m and estep > step and i not in late:
+                            began = max([x for x in starts if x <= estep], default=None)
+                            if began == step:
+                                late.append(i)
         if not [1 for step, i in entered if i == m]:
             return out
     if kind in ("recv-fault", "continue-send-fault"):
@@ -368,18 +383,23 @@ def judge(scn, o):
     return out
 
 
+def fault_step_setup(w, results, log):
+    orig = w.note_fault
+
+    def note_fault(conn, op, n, f):
+        if getattr(w, "fault_step", None) is None:
+            w.fault_step = w.sched.steps
+            me = w.sched.me()
+            w.fault_thread = (getattr(me, "tid", None), getattr(me, "role", None))
+        return orig(conn, op, n, f)
+
+    w.note_fault = note_fault
+
+
 def run_one(acc, scn, strat, label):
     from vf.sim import runner
 
-    def setup(w, results, log):
-        orig = w.note_fault
-
-        def note_fault(conn, op, n, f):
-            if getattr(w, "fault_step", None) is None:
-                w.fault_step = w.sched.steps
-            return orig(conn, op, n, f)
-
-        w.note_fault = note_fault
+    setup = fault_step_setup
 
     o = runner.run_scenario(scn, strat, trace=False, wall_timeout=120, setup=setup)
     try:
@@ -455,13 +475,19 @@ def run_shard(spec):
         acc.sample({"double_preemption_scenario": scn, "schedules": k})
     else:
         scn = spec["scn"]
-        o = runner.run_scenario(scn, {"kind": "np"}, pilot=True)
+        o = runner.run_scenario(scn, {"kind": "np"}, pilot=True, setup=fault_step_setup)
         points = runner.single_preemptions(o.pilot)
+        # every pre-emption in the steps that follow an injected fault is kept (the window in which the
+        # server has met the error but has not yet given the connection up), the rest is sampled
+        fs = getattr(o.world, "fault_step", None)
         runner.finish(o)
         if spec.get("cap") and len(points) > spec["cap"] * spec["parts"]:
             rng = random.Random(len(points))
-            points = sorted(rng.sample(points, spec["cap"] * spec["parts"]))
+            focus = [pt for pt in points if fs is not None and fs <= pt[0] <= fs + 250]
+            rest = [pt for pt in points if pt not in set(focus)]
+            points = sorted(set(focus) | set(rng.sample(rest, min(len(rest), spec["cap"] * spec["parts"]))))
             acc.count("enum_capped")
+            acc.count("enum_fault_window_points", len(focus))
         for step, tid in points[spec["part"] :: spec["parts"]]:
             run_one(acc, scn, {"kind": "forced", "switches": {str(step): tid}}, "forced")
         acc.sample({"enumerated_scenario": scn, "single_preemptions": len(points)})
